@@ -1167,7 +1167,7 @@ class MeasureFock(Measurement):
     ns = None
 
     def __init__(self, select=None, dark_counts=None):
-        if dark_counts and select:
+        if dark_counts and select is not None:
             raise NotImplementedError("Post-selection cannot be used together with dark counts.")
 
         if dark_counts is not None and not isinstance(dark_counts, Sequence):
